@@ -1,0 +1,81 @@
+//go:build verif
+
+// Package verifapi re-exports the already exported API of the internal packages so that
+// verification harnesses living outside this module can drive the real code in-process.
+// It contains no logic and is only compiled with the build tag "verif".
+package verifapi
+
+import (
+	"github.com/JunNishimura/Goit/internal/binary"
+	"github.com/JunNishimura/Goit/internal/file"
+	"github.com/JunNishimura/Goit/internal/log"
+	"github.com/JunNishimura/Goit/internal/object"
+	"github.com/JunNishimura/Goit/internal/sha"
+	"github.com/JunNishimura/Goit/internal/store"
+)
+
+type (
+	SHA1       = sha.SHA1
+	Object     = object.Object
+	ObjectType = object.Type
+	Tree       = object.Tree
+	Node       = object.Node
+	Commit     = object.Commit
+	Sign       = object.Sign
+	Index      = store.Index
+	Entry      = store.Entry
+	DiffEntry  = store.DiffEntry
+	Head       = store.Head
+	Refs       = store.Refs
+	Config     = store.Config
+	Ignore     = store.Ignore
+	Reflog     = store.Reflog
+	LogRecord  = store.LogRecord
+	Client     = store.Client
+	GoitLogger = log.GoitLogger
+	RecordType = log.RecordType
+)
+
+const (
+	UndefinedObject = object.UndefinedObject
+	BlobObject      = object.BlobObject
+	TreeObject      = object.TreeObject
+	CommitObject    = object.CommitObject
+	TagObject       = object.TagObject
+
+	CommitRecord   = log.CommitRecord
+	CheckoutRecord = log.CheckoutRecord
+	BranchRecord   = log.BranchRecord
+	ResetRecord    = log.ResetRecord
+)
+
+var (
+	ReadHash = sha.ReadHash
+
+	NewObject = object.NewObject
+	GetObject = object.GetObject
+	NewTree   = object.NewTree
+	NewCommit = object.NewCommit
+	NewSign   = object.NewSign
+	NewType   = object.NewType
+	GetNode   = object.GetNode
+
+	NewIndex  = store.NewIndex
+	NewEntry  = store.NewEntry
+	NewHead   = store.NewHead
+	NewRefs   = store.NewRefs
+	NewConfig = store.NewConfig
+	NewIgnore = store.NewIgnore
+	NewReflog = store.NewReflog
+	NewClient = store.NewClient
+
+	NewRecord     = log.NewRecord
+	NewRecordType = log.NewRecordType
+	NewGoitLogger = log.NewGoitLogger
+
+	ReadNullTerminatedString = binary.ReadNullTerminatedString
+
+	FindGoitRoot                         = file.FindGoitRoot
+	GetFilePathsUnderDirectory           = file.GetFilePathsUnderDirectory
+	GetFilePathsUnderDirectoryWithIgnore = file.GetFilePathsUnderDirectoryWithIgnore
+)
